@@ -21,4 +21,7 @@ MUTANTS = [
      'edits': [(LIB, "            let reader = BlocksToFileReader::new(&mut self.src, &file_info.offsets)?;", "            let first = files_info.values().next().unwrap_or(file_info);\n            let reader = BlocksToFileReader::new(&mut self.src, &first.offsets)?;")]},
     {'id': 'c10-benign-local-alias', 'props': ['C10'], 'expect': 'silent',
      'edits': [(LIB, "            self.src.seek(SeekFrom::Start(file_info.eof_offset))?;", "            let target = file_info.eof_offset;\n            self.src.seek(SeekFrom::Start(target))?;")]},
+    {'id': 'c10-benign-validated-fast-path', 'props': ['C10', 'C03'], 'expect': 'silent',
+     'edits': [(ENC, "                // Seek the inner layer at the beginning of the chunk\n                self.inner.seek(SeekFrom::Start(pos_chunk_start))?;\n",
+                "                let wanted = u32::try_from(chunk_number).map_err(|_| {\n                    io::Error::new(io::ErrorKind::InvalidInput, \"Chunk number out of range\")\n                })?;\n                let cached_len = self.chunk_cache.get_ref().len() as u64;\n                if wanted == self.current_chunk_number && cached_len != 0 {\n                    // same chunk, valid cache: only reposition\n                    self.inner.seek(SeekFrom::Start(pos_chunk_start + cached_len + TAG_LENGTH as u64))?;\n                    self.chunk_cache.seek(SeekFrom::Start(pos_in_chunk))?;\n                    return Ok(pos);\n                }\n                // Seek the inner layer at the beginning of the chunk\n                self.inner.seek(SeekFrom::Start(pos_chunk_start))?;\n")]},
 ]
